@@ -10,6 +10,7 @@ mod ops_json;
 mod ops_ns;
 mod ops_time;
 mod ops_total;
+mod ops_units;
 mod ops_zinc;
 mod util;
 mod worker;
@@ -32,6 +33,7 @@ fn dispatch(vec: &J, out: &mut Out, wk: &mut Option<worker::Worker>) -> Result<(
         "defs" => ops_defs::run(vec, out),
         "ns" => ops_ns::run(vec, out),
         "capi" => ops_capi::run(vec, out),
+        "units" => ops_units::run(vec, out),
         "time" => ops_time::run(vec, out),
         "filter" => ops_filter::run(vec, out, wk.get_or_insert_with(worker::Worker::new)),
         "dec" | "stab" => ops_total::run(vec, out, wk.get_or_insert_with(worker::Worker::new)),
@@ -85,6 +87,7 @@ fn main() {
                     }
                 }
                 "fuzz" => ops_total::rec_fuzz(&mut out, seed, n),
+                "units" => ops_units::rec(&mut out, seed, n > 1),
                 "capi" => {
                     let len: usize = arg(&args, "--len").and_then(|s| s.parse().ok()).unwrap_or(30);
                     ops_capi::rec(&mut out, seed, n, len);
